@@ -35,3 +35,7 @@ VARIANTS = [
     v("c05-twin-wsse", W, "wsse = (((w_temp**0.5) * (y - z)) ** 2).sum()", "wsse = (w_temp * (y - z) ** 2).sum()", expect="silent"),
     v("c05-twin-le", W, "if gcv[0] < gcv_temp[0]:", "if gcv[0] <= gcv_temp[0]:", expect="silent"),
 ]
+
+VARIANTS += [
+    v("c05-p-half", A, "        if p:\n            if srange is None:\n                srange = np.arange(-1.8, 4.2, 0.2, dtype=np.float64)", "        if p and p != 0.5:\n            if srange is None:\n                srange = np.arange(-1.8, 4.2, 0.2, dtype=np.float64)", names="kernel selection"),
+]
